@@ -6,7 +6,7 @@
    id k at tap position pos;  own_row tab k pos = the table row with the transformer's own id AND own tap position
    (what the property demands);  tab_consistent = rows with equal (id, step) carry equal values. *)
 From Coq Require Import ZArith QArith List Bool.
-From PPV Require Import Base.QN C31.Model C31.Proofs.
+From PPV Require Import Base.QN C31.Model C31.Proofs C31.ModelLoop C31.ProofsLoop.
 Import ListNotations.
 Open Scope Q_scope.
 
@@ -100,3 +100,52 @@ Print Assumptions C31_old_lookup_partial.
 Example C31_old_nonvacuous : G31 nv_flt = true /\ lookup_old c_ratio wit_tab nv_flt 0 == 105 # 100.
 Proof. exact old_nonvacuous. Qed.
 Print Assumptions C31_old_nonvacuous.
+
+From Coq Require Import String.
+(* ---- both tap changers: the loop  for t in ("", "2")  of _calc_tap_from_dataframe (C31/ModelLoop.v).
+   tap_pass ord is3w has_dep tab deps rows taps = one pass: has_dep = the frame has a tap{t}_dependency_table column,
+   deps = the tap_dependency_table flags, taps = the tap{t}_* columns, ord = the ordinary (non-tabular) rule, a parameter.
+   tap_loop ... has_dep1 has_pos2 has_dep2 = first pass, then the pass "2" iff the frame has tap2_pos. *)
+
+(* a pass without its dependency column (the second tap changer of every standard frame) is the ordinary rule applied
+   row by row: no table value is read, no NA-id error is raised, whatever tap_dependency_table says *)
+Theorem C31_tap2_never_looked_up : forall ord is3w tab deps rows taps,
+  tap_pass ord is3w false tab deps rows taps
+  = if existsb (fun dx => ideal_both false (snd dx)) (combine deps taps) then inr "UserWarning"%string
+    else inl (map3 (fun (_ : bool) t x => apply_ord ord x (retap false x t)) deps rows taps).
+Proof. exact pass_without_dep_column. Qed.
+Print Assumptions C31_tap2_never_looked_up.
+
+Theorem C31_tap2_table_free : forall ord is3w tab1 tab2 deps rows taps,
+  tap_pass ord is3w false tab1 deps rows taps = tap_pass ord is3w false tab2 deps rows taps.
+Proof. exact pass_without_dep_column_table_free. Qed.
+Print Assumptions C31_tap2_table_free.
+
+(* the composition on a standard frame: the output row of a table-dependent transformer after BOTH passes is the
+   ordinary second tap changer applied to the explicit-values transformer (voltage_ratio / angle_deg of its own
+   (id, tap_pos) row entered directly) - for every ordinary rule that respects ==, any number of other transformers *)
+Theorem C31_loop_dependent_row_eq_explicit : forall ord,
+  (forall x u u', u == u' -> fst (ord x u) == fst (ord x u') /\ snd (ord x u) == snd (ord x u')) ->
+  forall is3w tab deps rows taps1 taps2 out i t x1 x2 k r,
+  tab_consistent c_ratio tab = true -> tab_consistent c_angle tab = true ->
+  tap_loop ord is3w true true false tab deps rows taps1 taps2 = inl out ->
+  nth_error deps i = Some true -> nth_error rows i = Some t -> nth_error taps1 i = Some x1 ->
+  nth_error taps2 i = Some x2 ->
+  t_id t = Some k -> own_row tab k (x_pos x1) = Some r ->
+  exists o, nth_error out i = Some o /\
+    trow_eqv o (apply_ord ord x2 (retap false x2 (explicit_step is3w (c_ratio r) (c_angle r) (retap true x1 t)))).
+Proof. exact loop_dependent_row_eq_explicit. Qed.
+Print Assumptions C31_loop_dependent_row_eq_explicit.
+
+(* the rational instance used by the correspondence run satisfies the hypothesis *)
+Theorem C31_ord_rat_proper : forall x u u', u == u' ->
+  fst (ord_rat x u) == fst (ord_rat x u') /\ snd (ord_rat x u) == snd (ord_rat x u').
+Proof. exact ord_rat_proper. Qed.
+Print Assumptions C31_ord_rat_proper.
+
+Example C31_loop_nonvacuous :
+  tab_consistent c_ratio wit_tab = true /\ tab_consistent c_angle wit_tab = true /\
+  exists o1 o2, tap_loop ord_rat false true true false wit_tab [true; true] lp_rows lp_taps1 lp_taps2 = inl [o1; o2] /\
+    t_vnh o1 == 110 * (95 # 100) * (105 # 100) /\ t_vnh o2 == 110 * (105 # 100).
+Proof. exact loop_nonvacuous. Qed.
+Print Assumptions C31_loop_nonvacuous.
